@@ -5,9 +5,10 @@ From RV Require Import Base.FExpr Base.F64 Gen.Units Model.Units.
 Import ListNotations.
 Open Scope Z_scope.
 
-(* impl PartialEq for Number: |a-b| / |a| <= EPSILON *)
+(* impl PartialEq for Number: |a-b| / max(|a|,|b|) <= EPSILON
+   (symmetric since the fix "number equality is symmetric") *)
 Definition number_eq (a b : f64) : bool :=
-  fle (fdiv (fabs (fsub a b)) (fabs a)) f_epsilon.
+  fle (fdiv (fabs (fsub a b)) (fmax (fabs a) (fabs b))) f_epsilon.
 
 (* impl PartialOrd for Number *)
 Definition number_cmp (a b : f64) : option comparison :=
